@@ -2,6 +2,7 @@ package main
 
 import (
 	"bufio"
+	"bytes"
 	"encoding/json"
 	"fmt"
 	"math/rand"
@@ -73,6 +74,10 @@ func (t *Tracer) Emit(e Event, nontrivial bool) {
 		fmt.Fprintln(os.Stderr, "marshal:", err)
 		os.Exit(2)
 	}
+	// a nil slice stands for an empty list (TLC's Json module rejects null)
+	b = bytes.ReplaceAll(b, []byte(":null"), []byte(":[]"))
+	b = bytes.ReplaceAll(b, []byte("[null"), []byte("[[]"))
+	b = bytes.ReplaceAll(b, []byte(",null"), []byte(",[]"))
 	t.w.Write(b)
 	t.w.WriteByte('\n')
 	t.N++
@@ -80,6 +85,10 @@ func (t *Tracer) Emit(e Event, nontrivial bool) {
 		ka, _ := json.Marshal(e.A)
 		kw, _ := json.Marshal(e.W)
 		key := e.Op + string(kw) + string(ka)
+		if e.Op == "Determ" { // the arguments of these events are recorded in real coordinates
+			kr, _ := json.Marshal(e.Real)
+			key += string(kr)
+		}
 		if _, ok := t.seen[key]; !ok {
 			t.seen[key] = struct{}{}
 			t.nontr++
@@ -248,6 +257,8 @@ func stringifyBig(v any) any {
 		return x
 	case int64:
 		return fmt.Sprint(x)
+	case float64:
+		return fmt.Sprint(x) // TLC's Json module has no real numbers
 	case []int64:
 		out := make([]string, len(x))
 		for i, y := range x {
